@@ -106,4 +106,23 @@ var checks = map[string]check{
 		Rule:   "one rapid case = one generated program under go:gen_deep_equal (+0-2 presentation-only options) built into a driver, then 30-100 pairs (copy, exactly one leaf changed at a drawn depth, independent values, same object, nil receivers/arguments/fields) judged against a reference structural equality, plus Write on sets with/without an injected duplicate (validate_set); non-trivial = the pair differs in exactly one leaf at depth >=2, or only in one map key; distinct by program, configuration, struct and both values",
 		Assume: []string{"the expectation is computed under a strict and a liberal reading of the statement and asserted only where both agree (otherwise only no-panic and symmetry): optional binary unset vs empty, optional-with-default absent vs present-equal-to-default, nil pointer vs object", "NaN and -0 are not generated; sets are compared in order"},
 	},
+	"C11": {
+		ID: "C11", Pkg: "c11", Tags: "verif", NeedBin: true, MaxPar: 10,
+		Jobs: []job{
+			{Run: "^TestRoundTrip$", Quick: 1500, QShards: 4, Thor: 40000, TShards: 14},
+			{Run: "^TestCompression$", Quick: 1500, QShards: 4, Thor: 40000, TShards: 14},
+			{Run: "^TestOptions$", Quick: 5000, QShards: 1, Thor: 100000, TShards: 4},
+			{Run: "^TestEndToEnd$", Quick: 60, QShards: 4, Thor: 2500, TShards: 14},
+		},
+		Rule:   "in-process: requests wrapping ASTs that the real front end produced from generated multi-file models (diamond includes, resolved references) with drawn strings; Marshal/Unmarshal identity, include compression + data trailer identity and restoration of the compiler's own tree, option string round trip. end to end: thriftgo runs a scripted plugin that dumps the decoded request (compared with the request the harness builds in-process) and answers per a drawn script: files, unnamed/named patches, warnings, error, exit status, truncated/garbage/empty stdout, delay beyond --plugin-time-limit; non-trivial = AST with a diamond include and >=1 resolved external reference, or a fault response; distinct by case",
+		Assume: []string{"reorder_fields and trim_idl are not drawn (they rewrite the request AST before plugins run)", "garbage stdout is generated only when certainly malformed", "'no output after a fault' is asserted because generation fails before anything is persisted"},
+	},
+	"C07": {
+		ID: "C07", Pkg: "c07", NeedBin: true, MaxPar: 8,
+		Jobs: []job{
+			{Run: "^TestDeterministic$", Quick: 25, QShards: 6, Thor: 360, TShards: 14},
+		},
+		Rule:   "GoSafe models (3-4 files) boosted with 2-5 annotation keys per node, 2-9-entry map constants and services throwing 2-5 exception types x 9 configuration classes (default, with_reflection, gen_type_meta, with_field_mask, fastgo, reserve_comments, template=slim, random go/fastgo option sets) x optional recording/patching plugin; k=4 (quick) / 12 (thorough) fresh processes under GOMAXPROCS 1/2/4/16 with -o directories of different name lengths, some dirty; the multiset (relative path, sha256) and the bytes a plugin receives must be identical; non-trivial = (node with >=2 annotation keys or map constant with >=2 entries) and >=2 generated files, distinct by files + args + plugin",
+		Assume: []string{"stdout/stderr are not compared", "plugin cases keep one -o string (the request embeds it)", "a two-entry Go map shows its minority order in roughly one process in eight, so a single nondeterministic map is caught by k=4 with probability about 0.4 per program; witnesses replay with k>=80"},
+	},
 }
